@@ -15,12 +15,12 @@ from vcheck.vsched import prims
 MOD = "vcheck.props.c12"
 
 STRATS = {
-    "t1": {"table": [1, "no"]}, "t13": {"table": [1, 3, "no"]}, "t0": {"table": [0, "no"]},
+    "t1": {"table": [1, "no"]}, "t13": {"table": [1, 3, "no"]}, "t0": {"table": [0, "no"]}, "k02": {"table": [0, 2, "no"], "ctor": True},
     "t303": {"table": [3, 0, 3, "no"]}, "none": "none", "only-boom": {"table": [1, 1, "no"], "only": ["Boom"]},
     "pk3": {"packaged": {"max_attempts": 3, "initial": 1, "max": 10, "rate": 2, "jitter": "NONE"}},
     "pk2full": {"packaged": {"max_attempts": 2, "initial": 2, "max": 5, "rate": 3, "jitter": "FULL"}},
 }
-MAXA = {"t1": 2, "t13": 3, "t0": 2, "t303": 4, "none": 1, "only-boom": 3, "pk3": 3, "pk2full": 2}
+MAXA = {"t1": 2, "t13": 3, "t0": 2, "k02": 3, "t303": 4, "none": 1, "only-boom": 3, "pk3": 3, "pk2full": 2}
 PATTERNS = {"ok": 0, "fail1": 1, "fail2": 2, "fail3": 3, "always": 99, "bam": "bam"}
 
 
@@ -166,6 +166,7 @@ def grid_chunk(arg):
         sig = f"C12/packaged/{clause}"
         viol.setdefault(sig, {"sig": sig, "msg": msg, "replay": {"grid": True, "sig": sig}})
 
+    same_base = {}
     combos = list(itertools.product(range(1, 7), (1, 2, 5, 100), (1, 10, 300), (1, 1.5, 2, 3), ("NONE", "HALF", "FULL")))
     for idx, (maxa, init, mx, rate, jit) in enumerate(combos):
         if idx % nch != k:
@@ -200,6 +201,13 @@ def grid_chunk(arg):
                 if prev is not None and dly < prev:
                     bad("jitter-not-monotone-in-random", f"{cfgs}: delay {dly} < {prev} for a larger random value")
                 prev = dly
+                # jitter is applied to the configured backoff value (capped at max_delay): two configurations /
+                # attempts with the same backoff value and the same random draw get the same delay
+                key = (jit, round(base, 9), r)
+                if key in same_base and same_base[key][0] != dly:
+                    bad("delay-not-a-function-of-capped-backoff",
+                        f"{cfgs}: delay {dly}, but {same_base[key][1]} has the same backoff value {base} and got {same_base[key][0]}")
+                same_base.setdefault(key, (dly, cfgs))
     if k == 0:
         prims.RANDOM_OVERRIDE = 0.5
         # error filters
